@@ -308,6 +308,7 @@ class Run:
         self.known_hits = []      # (finding id, text)
         self.obligations = []     # (name, ok, detail)
         self.notes = []
+        self.last_case = None
         self._model = None
 
     @property
@@ -320,6 +321,7 @@ class Run:
         self.hist[key] = self.hist.get(key, 0) + n
 
     def case(self, signature, sample=None, nontrivial=True):
+        self.last_case = {"signature": repr(signature)[:400], "sample": sample}
         self.evaluations += 1
         if nontrivial:
             self.distinct.add(signature)
